@@ -1364,9 +1364,12 @@ fn main() {
     // Signals arriving on whatever thread runs the code under test (no-op handler, no SA_RESTART):
     // always for the retry-cap cases, on odd shards for the scheduler engines.
     let (shard, _) = shard_of(&args);
+    // --signals 1 (default): odd shards of the scheduler engines; 2: shard 1 only (long runs: the
+    // timer costs the token scheduler a multiple of its run time); 0: never
+    let sig_policy = arg_u64(&args, "signals", 1);
     let signals = match mode.as_str() {
         "c18cap" => 150,
-        "sched" | "stopenum" | "c03long" if shard % 2 == 1 => 2000,
+        "sched" | "stopenum" | "c03long" if (sig_policy == 1 && shard % 2 == 1) || (sig_policy == 2 && shard == 1) => 2000,
         _ => 0,
     };
     if signals > 0 {
